@@ -7,3 +7,4 @@ mkdir -p .target evidence replays
 ( cd harness && cargo build --release --offline 2>&1 | tail -3 )
 ( cd harness-sched && CARGO_TARGET_DIR=/verif/.target-sched cargo build --release --offline 2>&1 | tail -2 )
 ( cd /repo && CARGO_TARGET_DIR=/verif/.target/repo-cli cargo build --offline -p warcraft-rs 2>&1 | tail -2 )
+gcc -shared -fPIC -O2 -o /verif/.target/libshortwrite.so /verif/faultfs/shortwrite.c -ldl
